@@ -13,6 +13,7 @@ import (
 	"net/http"
 	"net/http/httptest"
 	"runtime"
+	"time"
 
 	"github.com/maruel/panicparse/v2/stack/webstack"
 	"pgregory.net/rapid"
@@ -21,6 +22,9 @@ import (
 type c20Phase struct {
 	Population int      // parked goroutines besides the registered workload
 	Reqs       []c20Req // valid GETs issued while the population is that large
+	// Overlap: the population changes while an earlier GET is still being answered, so the
+	// first GET of the phase follows that one's dump within a few milliseconds
+	Overlap bool `json:",omitempty"`
 }
 
 type c20GrowCase struct{ Phases []c20Phase }
@@ -28,10 +32,22 @@ type c20GrowCase struct{ Phases []c20Phase }
 func c20GrowOracle(c c20GrowCase) error {
 	w := newWorkload(1)
 	defer w.shutdown()
-	srv := httptest.NewServer(http.HandlerFunc(webstack.SnapshotHandler))
+	entered := make(chan struct{}, 16)
+	srv := httptest.NewServer(http.HandlerFunc(func(rw http.ResponseWriter, req *http.Request) {
+		if req.Header.Get("X-Verif-Overlap") != "" {
+			entered <- struct{}{}
+		}
+		webstack.SnapshotHandler(rw, req)
+	}))
 	defer closeServer(srv)
 	client := &http.Client{}
 	st := statsFor("C20")
+	type bgResult struct {
+		code  int
+		ctype string
+		body  []byte
+		err   error
+	}
 	type parked struct{ ch chan int }
 	var pop []parked
 	defer func() {
@@ -41,6 +57,28 @@ func c20GrowOracle(c c20GrowCase) error {
 	}()
 	prev := 0
 	for pi, ph := range c.Phases {
+		var bg chan bgResult
+		if ph.Overlap {
+			bg = make(chan bgResult, 1)
+			go func() {
+				req, _ := http.NewRequest("GET", srv.URL+"/debug?augment=0", nil)
+				req.Header.Set("X-Verif-Overlap", "1")
+				resp, err := client.Do(req)
+				if err != nil {
+					bg <- bgResult{err: err}
+					return
+				}
+				body, rerr := io.ReadAll(resp.Body)
+				resp.Body.Close()
+				bg <- bgResult{resp.StatusCode, resp.Header.Get("Content-Type"), body, rerr}
+			}()
+			select {
+			case <-entered:
+			case <-time.After(60 * time.Second):
+				return fmt.Errorf("HARNESS: the overlapping request did not reach the handler in 60s")
+			}
+			time.Sleep(2 * time.Millisecond) // lets the handler take its dump; only shapes the schedule
+		}
 		for len(pop) < ph.Population {
 			p := parked{ch: make(chan int)}
 			ready := make(chan int, 1)
@@ -73,6 +111,22 @@ func c20GrowOracle(c c20GrowCase) error {
 				st.class("small_budget_after_growth", 1)
 			}
 		}
+		if bg != nil {
+			select {
+			case b := <-bg:
+				if b.err != nil {
+					return fmt.Errorf("phase %d: request overlapping the population change: %v", pi, b.err)
+				}
+				upper := max(prev, ph.Population) + len(w.stable) + runtime.NumGoroutine() + 64
+				if err := c20CheckResponse(&c20Req{Method: "GET", Augment: sp("0")}, b.code, b.ctype, b.body, len(w.stable)+min(prev, ph.Population), upper); err != nil {
+					return fmt.Errorf("request overlapping the change of population %d -> %d: %v", prev, ph.Population, err)
+				}
+				st.count(1, 1)
+				st.class("request_overlapping_population_change", 1)
+			case <-time.After(300 * time.Second):
+				return fmt.Errorf("request overlapping the change of population %d -> %d: no answer in 300s", prev, ph.Population)
+			}
+		}
 		st.class("population_phases", 1)
 		prev = ph.Population
 	}
@@ -84,7 +138,7 @@ var c20Grow = Check[c20GrowCase]{
 	Gen: func(t *rapid.T) c20GrowCase {
 		var c c20GrowCase
 		for i, k := 0, rapid.IntRange(2, 5).Draw(t, "phases"); i < k; i++ {
-			ph := c20Phase{Population: rapid.SampledFrom([]int{0, 5, 60, 400, 900, 1500}).Draw(t, "population")}
+			ph := c20Phase{Population: rapid.SampledFrom([]int{0, 5, 60, 400, 900, 1500}).Draw(t, "population"), Overlap: i > 0 && rapid.Bool().Draw(t, "overlap")}
 			for j, m := 0, rapid.IntRange(1, 3).Draw(t, "reqs"); j < m; j++ {
 				r := c20Req{Method: "GET"}
 				if rapid.Bool().Draw(t, "withSimilarity") {
